@@ -75,6 +75,20 @@ def rand_exec(rng, nops, ne, nl):
     return ops
 
 
+# the scenarios of the repository's own unit test (test/UnitTest/TestCallback.cpp), transcribed for the interpreter:
+# the test asserts only a few counters; here every invocation and both sides' bookkeeping are judged by Connections
+UNIT_TEST_SCENARIOS = [
+    ["connect 1 1 1 1", "disconnect 1 1 1 1", "connect 1 1 1 1", "connect 1 1 1 1", "emit 1 1", "ret!", "ret!", "emit 1 2"],
+    ["connect 1 1 2 1", "destroyL 2", "emit 1 1"],
+    ["connect 2 1 1 1", "destroyE 2", "destroyL 1"],
+    ["connect 1 1 2 1", "connect 1 1 1 1", "emit 1 1", "destroyL 2", "ret!", "ret!", "emit 1 1", "ret!"],
+    ["connect 1 1 1 1", "connect 1 1 2 1", "emit 1 1", "disconnect 1 1 1 1", "ret!", "ret!", "emit 1 1", "ret!"],
+    ["connect 1 1 1 1", "connect 1 1 2 1", "emit 1 1", "disconnect 1 1 1 1", "destroyE 1", "ret!", "destroyL 1", "destroyL 2"],
+    ["connect 1 1 3 1", "connect 1 1 3 2", "connect 1 1 4 1", "connect 1 1 4 2", "emit 1 1", "ret!", "ret!", "ret!", "ret!", "emit 1 2",
+     "disconnect 1 1 3 1", "disconnect 1 1 3 2", "disconnect 1 1 4 1", "emit 1 1", "ret!"],
+]
+
+
 def check_executions(ctx, binary, executions, tag):
     return vlib.check_executions(ctx, binary, executions, tag, SPECDIR, "ConnectionsTrace", "ConnectionsTrace.cfg", key_of)
 
@@ -95,6 +109,7 @@ def run(ctx):
             execs = [[x for x in (label_to_op(*st) for st in w) if x] for w in walks]
             ctx.notes["graph_edges_replayed:" + cfg] = nedges
             check_executions(ctx, binary, execs, "graph_" + cfg.replace(".cfg", ""))
+    check_executions(ctx, binary, UNIT_TEST_SCENARIOS, "unittest")
     # direction B: random nested programs over 3 emitters x 2 signals, 4 listeners x 2 slots
     nexec, nops = (600, 40) if ctx.quick else (20000, 60)
     execs = [rand_exec(ctx.rng, nops, ctx.rng.choice([1, 2, 3]), ctx.rng.choice([1, 2, 4])) for _ in range(nexec)]
